@@ -1,27 +1,66 @@
 (* C01 — Every reported alignment is a one-to-one, collinear matching of real labels.
-   INTERIM version: the verified checker that decides the property on every row the implementation returns (it is evaluated
-   inside Coq on the implementation's outputs by the correspondence run), and one-to-one-ness of a valid matching.
-   The pipeline theorems (segments of a pairing are valid matchings; rows from disjoint segments are valid) are being
-   added from proofs/PairingProofs4.v and proofs/ResolverProofs*.v. *)
-From Coq Require Import ZArith List Bool.
+   Model: Core.aligner_align (pairing -> scoring -> segments -> chain -> stack-based conflict resolution) and Multi.row_create.
+   Hypotheses: engine_ok P reference query := 0 <= DMAX /\ 0 < MS /\ SU <= 0 /\ both label lists strictly ascending;
+               qry_in_range query := every query label lies in [0, length - 1] (true of trimmed queries and their fragments).
+   What is NOT covered by a theorem: joined rows of the multi-pass modes (AlignmentResultRow.resolve joins segments[0] of the two
+   parts without the chain admissibility the resolver relies on: see DESIGN.md 10.4, open finding) and maps with coincident labels;
+   for those the verified checker below still decides every emitted record at run time. *)
+From Coq Require Import ZArith QArith List Bool.
 Import ListNotations.
-Require Import Py Cigar Checkers CheckersProofs.
+Require Import Py Cigar Pairing Core Multi Checkers CheckersProofs ResolverProofs3 RowProofs RowProofs2 RowProofs3 ResolverProofs10 ResolverProofs14.
 Open Scope Z_scope.
 
 (* valid_row nref qlo qhi rev ps: ps <> [], every pair names reference label 1..nref and query label qlo..qhi,
    reference labels strictly ascending, query labels strictly increasing ('+') / decreasing ('-') *)
+
+(* THE property for every candidate alignment the aligner builds from ANY list of seed peaks, both strands, all parameters *)
+Theorem C01_all_rows_valid P it reference query peaks reverse out : engine_ok P reference query -> qry_in_range query ->
+  mshift reference = 0 -> mshift query = 0 ->
+  aligner_align P it reference query peaks reverse = Ok out -> row_pairs out <> [] ->
+  valid_row (Z.of_nat (length (mpositions reference))) 1 (Z.of_nat (length (mpositions query))) reverse (row_sites (row_pairs out)).
+Proof. exact (aligner_rows_valid P it reference query peaks reverse out). Qed.
+
+(* the listing order of the record (segment order) is already the order by reference coordinate: Row.create's sort is the identity *)
+Theorem C01_listing_sorted dir segs : segments_disjoint dir segs -> sort_by pair_rpos (row_pairs segs) = row_pairs segs.
+Proof. exact (row_pairs_sorted dir segs). Qed.
+
+(* rows built from pairwise disjoint segments whose labels are in range are valid (used for any resolver output that passes the checker) *)
+Theorem C01_from_disjoint nref nqry rev_ segs :
+  segments_disjoint (strand_dir rev_) segs ->
+  (forall p, In p (row_pairs segs) -> 1 <= rsite_of p <= nref /\ 1 <= qsite_of p <= nqry) -> row_pairs segs <> [] ->
+  ResolverProofs3.valid_rowb nref nqry rev_ (row_sites (row_pairs segs)) = true.
+Proof. exact (RowProofs.C01_from_disjoint nref nqry rev_ segs). Qed.
+
+(* the verified checker evaluated on every row the implementation returns, and on every record of every file *)
 Theorem C01_checker_sound_complete nref qlo qhi rev ps :
-  valid_rowb nref qlo qhi rev ps = true <-> valid_row nref qlo qhi rev ps.
-Proof. exact (valid_rowb_spec nref qlo qhi rev ps). Qed.
+  Checkers.valid_rowb nref qlo qhi rev ps = true <-> valid_row nref qlo qhi rev ps.
+Proof. exact (CheckersProofs.valid_rowb_spec nref qlo qhi rev ps). Qed.
 
 (* such a matching uses each reference label and each query label at most once *)
 Theorem C01_one_to_one dir ps : dir = 1 \/ dir = -1 -> valid dir ps -> NoDup (map fst ps) /\ NoDup (map snd ps).
 Proof. exact (valid_one_to_one dir ps). Qed.
 
 Example C01_nonvacuous : valid_row 30 1 20 true [(22, 14); (23, 13); (25, 9)].
-Proof. apply valid_rowb_spec. vm_compute. reflexivity. Qed.
-Example C01_rejects_repeat : valid_rowb 30 1 20 true [(22, 13); (23, 14)] = false.
+Proof. apply CheckersProofs.valid_rowb_spec. vm_compute. reflexivity. Qed.
+Example C01_rejects_repeat : Checkers.valid_rowb 30 1 20 true [(22, 13); (23, 14)] = false.
 Proof. vm_compute. reflexivity. Qed.
+(* the hypotheses of C01_all_rows_valid are met by a concrete three-peak reverse-strand input whose chain has four members,
+   two of which are trimmed and one emptied; the resulting row has 3 pairs *)
+Definition exP := mkP 200 2 (-20) 100 60 10 0 0.
+Definition exR := mkMap 1 0 [0; 10; 40; 60; 70; 80] 0.
+Definition exQ := mkMap 7 130 [0; 30; 60; 70; 80; 110; 120] 0.
+Example C01_hypotheses_satisfiable : engine_ok exP exR exQ /\ qry_in_range exQ /\
+  match aligner_align exP 1 exR exQ [-10; 40; 50] true with
+  | Ok out => length (row_pairs out) = 3%nat /\ Checkers.valid_rowb 6 1 7 true (row_sites (row_pairs out)) = true
+  | Err => False end.
+Proof.
+  split; [repeat split; try (vm_compute; congruence); repeat constructor|]. split.
+  - intros p Hp. cbn in Hp. unfold K. cbn. repeat (destruct Hp as [<-|Hp]; [split; vm_compute; congruence|]). destruct Hp.
+  - vm_compute. split; reflexivity.
+Qed.
 
+Print Assumptions C01_all_rows_valid.
+Print Assumptions C01_listing_sorted.
+Print Assumptions C01_from_disjoint.
 Print Assumptions C01_checker_sound_complete.
 Print Assumptions C01_one_to_one.
